@@ -250,6 +250,15 @@ def run(case):
             if ph2["overlap"]:
                 probes["update_temp_lifetimes_overlapped"] = 1
             check_outputs(result2, upd_nodes, "dump2", 2)
+        # the imports have returned; worker processes of a pool end without running exit hooks, so what matters is what
+        # is left once create_db()/update() are done (one scheduled gc), not what interpreter shutdown would clean up
+        for i, n in enumerate(ns):
+            if state[i] == "done":
+                try:
+                    n.call({"op": "gc"})
+                except Exception:
+                    pass
+        left_before_exit = w.tmp_files()
         # orderly exit of finished nodes (normal interpreter exit)
         for i, n in enumerate(ns):
             if state[i] == "done":
@@ -268,6 +277,10 @@ def run(case):
                 if pending[i]:
                     excused.add(pending[i])
         bad = [f for f in left if not any(x in f for x in excused)]
+        bad_before = [f for f in left_before_exit if not any(x in f for x in excused)]
+        if bad_before and not bad:
+            V.append(viol("C20.tempfiles", "after the imports returned (and a gc) the temp dir still holds %r; the files only go away at "
+                          "interpreter exit (schedule %s)" % (bad_before, _s(sched)), kind="leftover_until_exit"))
         if bad:
             V.append(viol("C20.tempfiles", "temp dir holds files of finished importers: %r (schedule %s)" % (bad, _s(sched)),
                           kind="leftover"))
@@ -303,9 +316,10 @@ def _readers(case, w, which, V, probes, journal, stats):
     R = case["readers"]
     rng = random.Random(case["reader_seed"])
     rs = [w.node(lockstep_kinds=("sql", "sql.connect")) for _ in range(R)]
-    phase = ["open"] * R  # open -> dump -> done
+    phase = ["open"] * R  # open -> dump -> region -> done
     state = ["idle"] * R
     results = [None] * R
+    regions = [None] * R
     sched = []
     while any(p != "done" for p in phase):
         el = [i for i in range(R) if phase[i] != "done"]
@@ -314,7 +328,13 @@ def _readers(case, w, which, V, probes, journal, stats):
         n = rs[i]
         try:
             if state[i] == "idle":
-                n.send({"op": "open", "h": "h", "db": db} if phase[i] == "open" else {"op": "dump", "h": "h"})
+                if phase[i] == "open":
+                    n.send({"op": "open", "h": "h", "db": db})
+                elif phase[i] == "dump":
+                    n.send({"op": "dump", "h": "h"})
+                else:
+                    # a bin-restricted query (first one on this handle) while the other readers are in mid-iteration
+                    n.send({"op": "read", "h": "h", "m": "region", "kw": {"region": ["chr1", 1, 100000], "completely_within": True}})
             else:
                 n.send(("go",))
             m = n.recv()
@@ -334,14 +354,22 @@ def _readers(case, w, which, V, probes, journal, stats):
             continue
         if phase[i] == "open":
             phase[i] = "dump"
-        else:
+        elif phase[i] == "dump":
             results[i] = r["dump"]
+            phase[i] = "region"
+        else:
+            regions[i] = r["out"]
             phase[i] = "done"
     for n in rs:
         n.close()
     for i, d in enumerate(results):
         if d is not None and d != ref["dump"]:
             V.append(viol("C20.readers", "reader %d observed different content than a solitary reader" % i, kind="reader_differs"))
+    want_region = sorted(f["id"] for f in ref["dump"]["features"] if f["cols"][0] == "chr1" and isinstance(f["cols"][3], int)
+                         and f["cols"][3] >= 1 and f["cols"][4] <= 100000)
+    for i, rg in enumerate(regions):
+        if rg is not None and sorted(rg) != want_region:
+            V.append(viol("C20.readers", "reader %d: region query returned %r, the file holds %r" % (i, sorted(rg), want_region), kind="reader_region"))
     switches = sum(1 for a, b in zip(sched, sched[1:]) if a != b)
     if switches >= 2:
         probes["readers_interleaved"] = 1
